@@ -9,10 +9,11 @@
 //! state it keeps for the connection - this is how "which connection was handed out, and was it
 //! clean at that moment" is observed from the outside.
 //!
-//! cfg    = [max_size]
+//! cfg    = [max_size, response timeout configured (0/1)]
 //! labels = [0] get | [1,c] return | [2,c] Connection::take | [3,c,k] use (0 WATCH 1 GET 2 SET 3 UNWATCH)
 //!        | [4,c,mode,v] next PING on c is answered: 0 echo, 1 bulk v, 2 simple string v, 3 integer v,
-//!                       4 nil, 5 error, 6 the server hangs up, 7 +PONG, 8 bulk PONG
+//!                       4 nil, 5 error, 6 the server hangs up, 7 +PONG, 8 bulk PONG,
+//!                       9 no answer at all (only with cfg[1] = 1: the manager has a response timeout)
 //!        | [5,c] next UNWATCH on c is answered with an error | [6] next connect: hang up after accept
 //!        | [7,c] the server hangs up on c now
 //! obs    = [r0,r1,r2, max_size,size,available, nconns,(server_closed_i,watch_i).., ncmds,(len,conn,kind,..)..,
@@ -161,6 +162,8 @@ async fn serve(mut s: TcpStream, id: usize, sh: Sh, kill: Arc<Notify>) {
                             // the argument-less answer: not the echo of the number (value -7 in the log)
                             7 => (1, -7, Some("+PONG\r\n".into())),
                             8 => (1, -7, Some("$4\r\nPONG\r\n".into())),
+                            // silent: the PING is read and never answered, the socket stays open
+                            9 => (0, 0, Some(String::new())),
                             _ => (0, 0, None),
                         };
                         w.log.push(vec![id as i64, 2, n, has, val]);
@@ -219,6 +222,7 @@ struct Case {
     held: BTreeMap<usize, Connection>,
     taken: BTreeMap<usize, MultiplexedConnection>,
     logpos: usize,
+    cfg: Vec<i64>,
 }
 
 impl Case {
@@ -226,10 +230,17 @@ impl Case {
         let sh: Sh = Default::default();
         let (l, addr) = listener();
         drop(tokio::spawn(accept_loop(l, sh.clone())));
-        let mut c = Config::from_url(format!("redis://{}", addr));
-        c.pool = Some(PoolConfig::new(cfg[0] as usize));
-        let pool = c.create_pool(Some(Runtime::Tokio1)).unwrap();
-        Case { pool, sh, held: BTreeMap::new(), taken: BTreeMap::new(), logpos: 0 }
+        let pool = if cfg.get(1).copied().unwrap_or(0) == 0 {
+            let mut c = Config::from_url(format!("redis://{}", addr));
+            c.pool = Some(PoolConfig::new(cfg[0] as usize));
+            c.create_pool(Some(Runtime::Tokio1)).unwrap()
+        } else {
+            // a manager with a response timeout: a server that does not answer is "no reply"
+            let acc = deadpool_redis::redis::AsyncConnectionConfig::new().set_response_timeout(Duration::from_millis(250));
+            let mgr = deadpool_redis::Manager::from_config(format!("redis://{}", addr), acc).unwrap();
+            Pool::builder(mgr).max_size(cfg[0] as usize).runtime(Runtime::Tokio1).build().unwrap()
+        };
+        Case { pool, sh, held: BTreeMap::new(), taken: BTreeMap::new(), logpos: 0, cfg: cfg.to_vec() }
     }
 
     fn anomaly(&self, code: i64) {
@@ -401,7 +412,8 @@ fn gen_label(rng: &mut Rng, cs: &Case, profile: Profile) -> Vec<i64> {
         3 => vec![3, pick(rng, &users), rng.weighted(&[5, 2, 2, 1]) as i64],
         4 => {
             let c = target(rng);
-            let mode = 1 + rng.weighted(&[4, 2, 2, 1, 3, 3, 2, 2]) as i64;
+            let silent_ok = cs.cfg.get(1).copied().unwrap_or(0) == 1;
+            let mode = 1 + rng.weighted(&[4, 2, 2, 1, 3, 3, 2, 2, if silent_ok { 3 } else { 0 }]) as i64;
             let v = match rng.weighted(&[5, 3, 2]) {
                 0 => rng.below(last_ping.max(0) as u64 + 1) as i64, // stale: a number used before
                 1 => last_ping + 1 + rng.below(3) as i64,          // may even be the right one
@@ -464,7 +476,7 @@ fn gen_trace(rng: &mut Rng, profile: Profile, max_labels: usize) -> TraceOut {
     if profile == Profile::Long {
         return gen_long_trace(rng);
     }
-    let cfg = vec![1 + rng.below(4) as i64];
+    let cfg = vec![1 + rng.below(4) as i64, rng.chance(12) as i64];
     let rt = runtime();
     let mut t = TraceOut { cfg: cfg.clone(), labels: vec![], obs: vec![], err: None };
     rt.block_on(async {
